@@ -98,7 +98,7 @@ Definition src_def (d : typedef) : bool :=
   let a := attrs_of d in
   let n := length (c_params a) in
   match c_as a with Some u => src_ty n u | None => true end &&
-  forallb (fun p => match snd p with Some u => src_ty 0 u | None => true end) (c_params a) &&
+  forallb (fun p => match snd p with Some u => src_ty n u | None => true end) (c_params a) &&
   match d with
   | DStruct _ s => src_shape n s
   | DEnum _ _ _ vs => forallb (src_variant n) vs
